@@ -113,6 +113,17 @@ register("C17",
          "Lenient readings stated: trailing window = the RANGE the code declares (t-N..t), offsets that do not divide the period are the code's documented approximations; only day-unit windows are modelled. No axioms.",
          "Coq proof (sorted-partition / frame lemmas, gap-free LAG induction, aggregate permutation invariance) + regenerated offset table; model/implementation correspondence on generated series", "DESIGN.md section 6/C17")
 
+register("C08",
+         "Machine-checked Coq theorems for tables of ANY size, any truncation function and ANY predicate on the rollup key (membership in a result group and every filter over rollup columns are such predicates): "
+         "re-aggregating the rollup built by the materialisation statement equals aggregating the base rows for SUM, COUNT (as SUM of counts), MIN and MAX, and the routed query has a group exactly when the base query has (C08_sum/count/min/max/groups); "
+         "rolling the time bucket up to a coarser granularity is exact for nested pairs for every timestamp (C08_granularity) and the code's granularity test only admits nested pairs; "
+         "the code's `_is_measure_derivable`, REGENERATED from preagg_matcher.py on every run, admits a metric only without own filters, listed in the rollup, with sum/count/min/max, or avg with a count measure (C08_derivable_sound); "
+         "witnesses show why median/stddev, filtered measures, AVG-stored-as-AVG and raw-timestamp filters must not be routed. Tied to the code by executing generated rollups/queries: compile(use_preaggregations=True) vs False on a database whose "
+         "rollups were built with the layer's own statement, every routing decision audited against the Coq criterion `exactly_derivable`, and Model/Preagg evaluated in Coq against the routed rows. "
+         "Partial: the routing decision procedure (can_satisfy_query, filter-column extraction, scoring) is audited on generated cases, not modelled; known-finding classes K3 (avg), K6 (raw time filter), K8 (count over no rows).",
+         "Trusted: Coq kernel; gen_derivable / gen_grancompat translators (fail-closed, validated each run); Model/Preagg.v hand-written (one coded dimension and non-NULL integer values stand for the dimension tuple / measure values), tied by differential testing; DuckDB as oracle. No axioms.",
+         "Coq proof (regrouping of decomposable aggregates over a partition, semilattice fold for min/max, calendar nesting) over a hand-written rollup model + translator-regenerated derivability; routed-vs-unrouted execution and decision audit", "DESIGN.md section 6/C08")
+
 PENDING = "check not built yet in this revision (see DESIGN.md section 10 build order)"
 
 
